@@ -168,7 +168,7 @@ def run(ctx):
                     return last.startswith("rewrite") or last.startswith("format_") or last.startswith("visit_") \
                         or last.startswith("walk_")
                 try:
-                    paths = explore(f, start=t_true, is_effect=formatter, max_paths=3000)
+                    paths = explore(f, start=t_true, is_effect=formatter, max_paths=3000, program=p, inline="effects", inline_effects=True)
                 except TooManyPaths:
                     r.instance("R04-a2", "%s: skip edge of %s #%d" % (short(f.id), short(g.name), g.ordinal), "not-explored",
                                g.loc(), "too many paths", nontrivial=False)
@@ -197,52 +197,57 @@ def spelling(ctx, rid):
     if f is None:
         r.undecidable(rid, "utils::is_skip not found")
         return
+    from absint import check_table, bool_outcome
     paths = explore(f, pure=lambda c: True)
     r.paths(rid, len(paths))
-    seen = set()
-    for path in paths:
-        if path.end != "ret":
-            if path.end == "loop":
-                r.undecidable(rid, "is_skip is not loop-free")
-            continue
-        dec = [(k, variant_name(v)) for k, v in path.decisions]
-        kind = None
-        for k, v in dec:
-            if k == "discr(arg1.kind)":
-                kind = v
-        ret = vkey(path.ret)
-        ok = False
-        if kind == "Word":
-            eqs = [(k, v) for k, v in dec if "PartialEq" in k and "path_to_string(arg1.path)" in k]
-            if ret == "true":
-                ok = len(eqs) >= 1 and eqs[-1][1] is True and ("skip_annotation()" in eqs[-1][0])
-            elif ret == "false":
-                ok = all(v is False for k, v in eqs) and len(eqs) == 2
-            else:
-                # undecided second comparison returned as is
-                ok = "path_to_string(arg1.path)" in ret and "depr_skip_annotation()" in ret and \
-                    all(v is False for k, v in eqs) and any("utils::skip_annotation()" in k for k, v in eqs)
-            seen.add("Word")
-        elif kind == "List":
-            hn = [v for k, v in dec if "has_name(arg1" in k]
-            ln = [v for k, v in dec if "ThinVec::<T>::len(arg1.kind as List.0) Eq 2" in k]
-            if ret == "false":
-                ok = (hn == [False]) or (hn == [True] and ln == [False])
-            else:
-                ok = hn == [True] and ln == [True] and ret.startswith("utils::is_skip_nested(arg1.kind as List.0[")
-            seen.add("List")
-        else:
-            ok = ret == "false"
-            seen.add(str(kind))
-        r.cells(rid, 1)
-        r.instance(rid, "is_skip[%s] %s" % (kind, [v for k, v in dec[1:]]), "ok" if ok else "violation",
-                   "%s:%d" % (f.file, f.line), ret[-80:])
-        if not ok:
-            r.violation(rid, "is_skip: kind=%s decisions=%s returns %s" % (kind, [v for k, v in dec[1:]], short(ret)[-60:]),
-                        "the spelling table of the skip attribute deviates from {rustfmt::skip, rustfmt_skip, cfg_attr(_, skip)}",
-                        ["%s:%d" % (f.file, f.line)])
-    if not {"Word", "List"} <= seen:
-        r.undecidable(rid, "is_skip: Word/List arms not found (%s)" % sorted(seen))
+    if any(pa.end == "loop" for pa in paths):
+        r.undecidable(rid, "is_skip is not loop-free")
+        return
+
+    def atom_of(key, val):
+        v = variant_name(val)
+        if key == "discr(arg1.kind)":
+            if isinstance(v, tuple) and v[0] == "other":
+                names = set(v[1])
+                return ("kind", "Word" if names == {"Word"} else ("List" if names == {"List"} else "other"))
+            return ("kind", v if v in ("Word", "List") else "other")
+        if not isinstance(val, bool):
+            return None
+        if "path_to_string(arg1.path)" in key and "PartialEq" in key:
+            if "utils::skip_annotation()" in key:
+                return ("eq_skip", val if "::eq(" in key else (not val))
+            if "utils::depr_skip_annotation()" in key:
+                return ("eq_depr", val if "::eq(" in key else (not val))
+        if "has_name(arg1" in key:
+            return ("cfg", val)
+        if "ThinVec::<T>::len(arg1.kind as List.0)" in key and (" Eq 2" in key or " Ne 2" in key):
+            return ("len2", val if " Eq 2" in key else (not val))
+        if key.startswith("utils::is_skip_nested(arg1.kind as List.0["):
+            return ("nested", val)
+        return None
+
+    def spec(a):
+        if a["kind"] == "Word":
+            return a["eq_skip"] or a["eq_depr"]
+        if a["kind"] == "List":
+            return a["cfg"] and a["len2"] and a["nested"]
+        return False
+    Bv = [False, True]
+    res = check_table(paths, atom_of, spec, lambda pa: bool_outcome(pa.ret, atom_of) if pa.end == "ret" else None,
+                      {"kind": ["Word", "List", "other"], "eq_skip": Bv, "eq_depr": Bv, "cfg": Bv, "len2": Bv, "nested": Bv})
+    r.cells(rid, res["cells"])
+    bad = {}
+    for (assign, exp, got, path, unknown) in res["deviations"]:
+        bad.setdefault(tuple(sorted(assign.items())), (assign, exp, got, unknown))
+    r.instance(rid, "is_skip table", "ok" if not bad and not res["uncovered"] else "deviates", "%s:%d" % (f.file, f.line),
+               "%d cells compared, %d deviate" % (res["cells"], len(bad)))
+    if res["uncovered"]:
+        r.undecidable(rid, "is_skip: %d cells not covered" % len(res["uncovered"]))
+    for k, (assign, exp, got, unknown) in list(sorted(bad.items(), key=str))[:4]:
+        r.violation(rid, "is_skip: %s" % ",".join("%s=%s" % kv for kv in sorted(assign.items())),
+                    "returns %s where the spelling table {rustfmt::skip, rustfmt_skip, cfg_attr(_, skip)} gives %s%s" % (
+                        got, exp, (" under %s" % unknown) if unknown else ""), ["%s:%d" % (f.file, f.line)])
+    # the word comparison must be against the literal spellings (checked below) and the cfg_attr test against sym::cfg_attr
     # the two spellings
     for nm, lit in (("skip_annotation", "rustfmt::skip"), ("depr_skip_annotation", "rustfmt_skip")):
         g = p.named(nm, within="rustfmt_nightly::utils")
@@ -271,20 +276,26 @@ def spelling(ctx, rid):
             if not ok:
                 r.violation(rid, "is_skip_nested%s returns %s" % (kind, short(ret)[-50:]), "nested skip spelling table deviates",
                             ["%s:%d" % (g.file, g.line)])
-    # contains_skip: Iterator::any over a closure that is `meta().map_or(false, is_skip-closure)`
+    # contains_skip: in whatever form (iterator `any`, explicit loop) it answers true only after is_skip answered true
     cs = p.fns.get(CONTAINS_SKIP)
     if cs is not None:
-        anyc = [c for c in cs.calls() if c.declared == "std::iter::Iterator::any"]
-        ok = bool(anyc)
-        if ok:
-            inner = [p.fns[x] for x in anyc[0].refs if x in p.fns]
-            ok = any(any(cc.name.endswith("Option::<T>::map_or") and cc.args[1][0] == "k" and cc.args[1][2] is False
-                         for cc in f2.calls()) for f2 in inner)
-            reach = p.reach_from([x.id for x in inner])
-            ok = ok and any(x.endswith("utils::is_skip") for x in reach)
-        r.instance(rid, "contains_skip = any(map_or(false, is_skip))", "ok" if ok else "violation", "%s:%d" % (cs.file, cs.line))
+        fam = p.body_family(cs)
+        reach = p.reach_from([x.id for x in fam])
+        calls_is_skip = any(x.endswith("utils::is_skip") for x in reach)
+        uses_meta = any(c.name.endswith("Attribute>::meta") or c.name.endswith("::meta") for x in fam for c in x.calls())
+        ok = calls_is_skip and uses_meta
+        for body in fam:
+            try:
+                for pa in explore(body, pure=lambda c: True, max_visits=2, max_paths=5000):
+                    if pa.end == "ret" and pa.ret is not None and vkey(pa.ret) == "true":
+                        decided = any(("is_skip(" in k or "map_or(" in k or "::any(" in k) and v is True for k, v in pa.decisions)
+                        if not decided:
+                            ok = False
+            except TooManyPaths:
+                pass
+        r.instance(rid, "contains_skip answers true only through is_skip", "ok" if ok else "violation", "%s:%d" % (cs.file, cs.line))
         if not ok:
-            r.violation(rid, "contains_skip shape", "contains_skip is no longer `attrs.iter().any(|a| a.meta().map_or(false, is_skip))`",
+            r.violation(rid, "contains_skip shape", "contains_skip no longer reduces to `some attribute's meta item satisfies is_skip`",
                         ["%s:%d" % (cs.file, cs.line)])
 
 
@@ -367,7 +378,8 @@ def scoping(ctx, rid):
     if ar is None:
         r.undecidable(rid, "<Attribute as Rewrite>::rewrite_result not found")
     else:
-        PURE = ("::snippet", "is_doc_comment", "to_owned", "::ident", "Option::<T>::map", "unwrap_or", "contains_comment")
+        PURE = ("::snippet", "is_doc_comment", "to_owned", "::ident", "Option::<T>::map", "unwrap_or", "contains_comment",
+                "SkipNameContext::skip", "Symbol::as_str", "Ident::as_str")
         # which Option::map carries the skip-attributes closure?
         guard_closure = None
         for c in ar.calls():
@@ -384,6 +396,9 @@ def scoping(ctx, rid):
                                     fl.add(e[4])
                             if "attributes" in fl:
                                 guard_closure = x
+        direct = [c for c in ar.calls() if c.name.endswith("SkipNameContext::skip")]
+        if guard_closure is None and direct:
+            guard_closure = "<direct call>"
         if guard_closure is None:
             r.violation(rid, "Attribute::rewrite_result: skip_context.attributes is not consulted",
                         "no `ident().map(|s| skip_context.attributes.skip(..))` test in the attribute rewriter",
@@ -405,6 +420,10 @@ def scoping(ctx, rid):
                         doc = v
                     if "unwrap_or(" in k and "Option::<T>::map(" in k and "::ident(arg1)" in k and isinstance(v, bool):
                         guard = v
+                    if "SkipNameContext::skip(" in k and "attributes" in k and isinstance(v, bool):
+                        guard = v
+                    if k.startswith("discr(") and "::ident(arg1)" in k and variant_name(v) == "None":
+                        guard = False   # an attribute without a name cannot be named by rustfmt::skip::attributes
                 ret = vkey(path.ret)
                 if ret.startswith("residual("):
                     continue
